@@ -421,7 +421,8 @@ fn gen_act_for(rng: &mut Rng, cur: &Option<S>, fault: usize, pool: &[&str], none
 	let fresh = cps_str(*rng.pick(pool));
 	let wrong = cps_str("WRONG");
 	if rng.below(1000) < fault {
-		return match (rng.below(4), cur) {
+		return match (rng.below(5), cur) {
+			(4, _) => Act::Edit(wrong.clone(), wrong),
 			(0, Some(_)) => Act::Add(fresh),
 			(0, None) => Act::Rem(fresh),
 			(1, _) => Act::Rem(wrong),
@@ -696,7 +697,8 @@ pub fn run(ctx: &Ctx) -> anyhow::Result<Report> {
 	}
 
 	// 1. the table on single-entry trees
-	let acts = [Act::None, Act::Add(cps_str("b")), Act::Rem(cps_str("a")), Act::Edit(cps_str("a"), cps_str("b"))];
+	// Edit(a,a) is what diff() emits for every entry kept on both sides: its old-value check is as binding as a real edit's
+	let acts = [Act::None, Act::Add(cps_str("b")), Act::Rem(cps_str("a")), Act::Edit(cps_str("a"), cps_str("b")), Act::Edit(cps_str("a"), cps_str("a"))];
 	let states: [Option<Option<&str>>; 4] = [None, Some(None), Some(Some("a")), Some(Some("x"))];
 	let mut table = 0u64;
 	for level in 0..4 {
